@@ -102,6 +102,8 @@ static void maybe_delay(long pnum, int site)
 /* pivot log (trace & 2): one record per p?gstrf_pivotL call */
 typedef struct { long j, usepr, old, diag, ncand, piv, usepr_out, pn; double thresh; long *rows; REAL *vals; } pivrec_t;
 static pivrec_t *pivlog; static long npiv, cappiv;
+#define MAXSNAP 4000
+static long *snaps[MAXSNAP]; static long nsnap;
 #define MAXBUMP 20000
 static long bumplog[2][MAXBUMP][3]; static long nbump[2];
 static __thread pivrec_t tl_piv;
@@ -195,6 +197,18 @@ static void verif_cb(int ev, long pnum, long a, long b, long c, const void *p)
     /* targeted perturbation: a pipelined panel (busy descendants bcol..jcol-1) delays its symbolic step until the busy
        descendants have made SOME progress (one or two more columns pivoted), at most 3 ms: the window in which a column
        of a busy supernode is already pivoted while the supernode is not yet final */
+    if (ev == SLU_VEV_LBUSY && cur_case && (cur_case->trace & 1) && p && a >= 0 && a <= cb_n) {
+        /* the worker's busy snapshot: the columns k < jcol with lbusy[k] == jcol */
+        const int_t *lb = (const int_t *) p; long k, cnt = 0;
+        pthread_mutex_lock(&evmu);
+        if (nsnap < MAXSNAP) {
+            long *rec = (long *) malloc((a + 4) * sizeof(long));
+            rec[0] = pnum; rec[1] = a; rec[2] = b;
+            for (k = 0; k < a; ++k) if (lb[k] == a) rec[4 + cnt++] = k;
+            rec[3] = cnt; snaps[nsnap++] = rec;
+        }
+        pthread_mutex_unlock(&evmu);
+    }
     if (ev == SLU_VEV_LBUSY && cur_case && cur_case->pprob > 0 && b >= 0 && b < a && a <= cb_n) {
         long k, base = 0, now, want, spins = 0;
         if (!tl_init) maybe_delay(pnum, ev);
@@ -226,6 +240,7 @@ static void cb_reset(case_t *c)
     if (!evbuf) evbuf = (evrec_t *) malloc(MAXEV * sizeof(evrec_t));
     nev = 0; slot_overrun = 0; slot_overrun_col = -1; nsuper_events = lsub_events = order_inversions = 0;
     thread_begin = thread_end = sched_calls = sched_nonempty = 0; max_qtail = 0; last_nsuper_of_lsub = -1; nbump[0] = nbump[1] = 0;
+    for (i = 0; i < nsnap; ++i) free(snaps[i]); nsnap = 0;
     for (i = 0; i < npiv; ++i) { free(pivlog[i].rows); free(pivlog[i].vals); } npiv = 0;
     tl_init = 0; (void) i;
 #ifdef SLU_MT_VERIF
@@ -268,6 +283,16 @@ static void cb_print(case_t *c)
             printf("],\"vals\":[");
             for (k = 0; k < r->ncand * NCOMP; ++k) printf("%s\"%a\"", k ? "," : "", (double) r->vals[k]);
             printf("]}");
+        }
+        printf("],");
+    }
+    if (c->trace & 1) {
+        long k2;
+        printf("\"lbusy\":[");
+        for (i = 0; i < nsnap; ++i) {
+            printf("%s[%ld,%ld,%ld,[", i ? "," : "", snaps[i][0], snaps[i][1], snaps[i][2]);
+            for (k2 = 0; k2 < snaps[i][3]; ++k2) printf("%s%ld", k2 ? "," : "", snaps[i][4 + k2]);
+            printf("]]");
         }
         printf("],");
     }
